@@ -454,6 +454,7 @@ func runC02(r *core.Run) {
 	}
 	c02Typed(r)
 	c02Retry(r)
+	c02ReadThenUpdate(r)
 	r.Sample(map[string]interface{}{"format": cases[len(cases)/2].Fmt, "table": fmt.Sprint(cases[len(cases)/2].Rows), "expected": cases[len(cases)/2].Exp.K})
 	r.Coverage["traces_validated_against_impl"] = len(jobs)
 	r.Coverage["format_cases"] = len(cases)
@@ -562,6 +563,76 @@ func c02Retry(r *core.Run) {
 			}
 			r.Count("refused_then_written_histories", 1)
 		}()
+	}
+}
+
+// c02ReadThenUpdate: the history  read - update - write  in one session, for every format: a table the session has read
+// first is loaded again when it is updated; what COMMIT writes then reads back, in a fresh session with the same settings,
+// as the updated table - same header, same number of fields, every other cell as it was.
+func c02ReadThenUpdate(r *core.Run) {
+	type variant struct{ name, file, content, pre string }
+	vs := []variant{
+		{"CSV", "t.csv", "id,item,qty\n1,apple,10\n2,kiwi,200\n3,fig,3\n", ""},
+		{"TSV", "t.tsv", "id\titem\tqty\n1\tapple\t10\n2\tkiwi\t200\n3\tfig\t3\n", ""},
+		{"LTSV", "t.ltsv", "id:1\titem:apple\tqty:10\nid:2\titem:kiwi\tqty:200\nid:3\titem:fig\tqty:3\n", ""},
+		{"FIXED:spaces", "t.txt", "id item  qty\n1  apple 10 \n2  kiwi  200\n3  fig   3  \n", "SET @@IMPORT_FORMAT TO FIXED;"},
+		{"FIXED:positions", "t.txt", "id item  qty\n1  apple 10 \n2  kiwi  200\n3  fig   3  \n", "SET @@IMPORT_FORMAT TO FIXED; SET @@DELIMITER_POSITIONS TO '[3, 9, 12]';"},
+		{"JSON", "t.json", "[{\"id\":1,\"item\":\"apple\",\"qty\":10},{\"id\":2,\"item\":\"kiwi\",\"qty\":200},{\"id\":3,\"item\":\"fig\",\"qty\":3}]\n", ""},
+		{"JSONL", "t.jsonl", "{\"id\":1,\"item\":\"apple\",\"qty\":10}\n{\"id\":2,\"item\":\"kiwi\",\"qty\":200}\n{\"id\":3,\"item\":\"fig\",\"qty\":3}\n", ""},
+	}
+	want := "1|apple|10;2|pear|200;3|fig|3"
+	for vi, v := range vs {
+		for _, first := range []string{"", "SELECT * FROM %s;", "SELECT COUNT(*) FROM %s; SELECT item FROM %s WHERE id = 2;"} {
+			dir := r.Dir(fmt.Sprintf("rtu%d", vi))
+			writeFile(filepath.Join(dir, v.file), v.content)
+			t := "`" + v.file + "`"
+			read := func() (string, string) {
+				q, err := sut.NewProc(dir, nil)
+				if err != nil {
+					core.Fail("proc: %v", err)
+				}
+				defer q.End()
+				if v.pre != "" {
+					q.Exec(v.pre)
+				}
+				rr := q.Exec("SELECT id, item, qty FROM " + t + ";")
+				if rr.Err != "" {
+					return "", firstLine(rr.Err)
+				}
+				ts, err := sut.ParseJSONTables(rr.Out)
+				if err != nil || len(ts) != 1 {
+					return "", "unparsable result"
+				}
+				var rows []string
+				for _, row := range ts[0].Rows {
+					var cs []string
+					for _, c := range row {
+						cs = append(cs, c.String())
+					}
+					rows = append(rows, strings.Join(cs, "|"))
+				}
+				return strings.Join(rows, ";"), ""
+			}
+			p, err := sut.NewProc(dir, nil)
+			if err != nil {
+				core.Fail("proc: %v", err)
+			}
+			prog := v.pre + " " + strings.ReplaceAll(first, "%s", t) + " UPDATE " + t + " SET item = 'pear' WHERE id = 2; COMMIT;"
+			rs := p.Exec(prog)
+			p.End()
+			got, e := read()
+			_ = os.RemoveAll(dir)
+			sig := "read-update-write:" + v.name
+			switch {
+			case rs.Err != "":
+				r.Violation(sig+":error", prog+" fails: "+firstLine(rs.Err), map[string]interface{}{"program": prog})
+			case e != "":
+				r.Violation(sig+":unreadable", prog+": the committed table does not load: "+e, map[string]interface{}{"program": prog})
+			case got != want:
+				r.Violation(sig+":differs", fmt.Sprintf("%s: a fresh read shows %q, expected %q", prog, got, want), map[string]interface{}{"program": prog})
+			}
+			r.Count("read_update_write_histories", 1)
+		}
 	}
 }
 
